@@ -550,6 +550,13 @@ func oracleBuild(w *World, ops []OpSpec, bb *builtBundle) []Violation {
 			vs = append(vs, viol("C17", "an offered and allowed version 0.0.0 (or 0.0.0 pre-release) is the newest allowed one, but the build reports that no version matches", "zero_version_never_selected"))
 		} else {
 			vs = append(vs, viol("C08", "fault-free world: the build reported an error"))
+			for _, oc := range o.Outcomes {
+				for _, d := range oc.Diags {
+					if d.Sev == "E" && d.Summary == "Cannot resolve module registry package" {
+						vs = append(vs, viol("C17", "every registry request of this world has an offered allowed version, yet the build reports that a registry package cannot be resolved"))
+					}
+				}
+			}
 		}
 	}
 	vs = append(vs, oracleTrace(o.Events)...)
